@@ -514,7 +514,9 @@ func (g *ubjGen) containerBody(obj bool, depth int) val.V {
 			g.str(k)
 			out.Keys = append(out.Keys, k)
 		}
-		if mode == 0 && !obj && g.o.Noops {
+		if mode != 2 && g.o.Noops {
+			// no-ops in value position: before array elements and before
+			// the value of an object field (plain and counted containers)
 			for r.P(1, 5) {
 				g.b = append(g.b, 'N')
 			}
